@@ -9,8 +9,6 @@ require (
 
 replace github.com/shutter-network/rolling-shutter/rolling-shutter => /repo/rolling-shutter
 
-
-
 require (
 	github.com/AdamSLevy/jsonrpc2/v14 v14.1.0
 	github.com/benbjohnson/clock v1.3.5
@@ -27,6 +25,7 @@ require (
 	github.com/icza/gog v0.0.0-20240529172513-3355cf65d018
 	github.com/ipfs/go-log/v2 v2.6.0
 	github.com/jackc/pgconn v1.14.1
+	github.com/jackc/pgproto3/v2 v2.3.2
 	github.com/jackc/pgx/v4 v4.18.1
 	github.com/kr/pretty v0.3.1
 	github.com/libp2p/go-libp2p v0.41.1
@@ -150,7 +149,6 @@ require (
 	github.com/jackc/chunkreader/v2 v2.0.1 // indirect
 	github.com/jackc/pgio v1.0.0 // indirect
 	github.com/jackc/pgpassfile v1.0.0 // indirect
-	github.com/jackc/pgproto3/v2 v2.3.2 // indirect
 	github.com/jackc/pgservicefile v0.0.0-20221227161230-091c0ba34f0a // indirect
 	github.com/jackc/pgtype v1.14.0 // indirect
 	github.com/jackc/puddle v1.3.0 // indirect
